@@ -88,8 +88,9 @@ class Config:
     extra_scratch: dict = field(default_factory=dict)
     quick_n2_fraction: float = 0.10
     quick_n2: dict = field(default_factory=dict)     # parameter dict of the seed-chosen larger quick instance
-    quick_n2_cases: int = 70_000
-    reruns_quick: int = 10
+    quick_n2_cases: int = 40_000
+    reruns_quick: int = 8
+    rerun_n: int = 1                # default size of the rerun blocks (entries may override with `rerun`)
     sweep_max: int = 16             # size sweep 1..sweep_max (digits of the namespace)
     sweep_max_quadratic: int = 16   # ... for macros whose code size grows with n^2
     sweep_extra: int = 0            # two more seed-chosen sizes in sweep_max+1..sweep_extra for the linear macros
@@ -108,7 +109,8 @@ class Block:
     temps: list                 # [(local label, ops)]
     params: dict
     kind: str = 'single'        # single | pair | sample
-    rerun: bool = False         # the block executes its macro code TWICE (same code instance, dirty temporaries)
+    rerun: object = False       # truthy: the block executes its macro code TWICE; value = harness lines run between the passes
+    sample_dom: list = None     # ranges used to draw real-engine samples (default: dom)
     guard: str = ''             # Coq/python predicate instance of a known defect (theorem is stated for `guarded`)
     witnesses: list = field(default_factory=list)
     w: int = 64
@@ -234,19 +236,62 @@ def make_pair(cfg, e1, e2, w):
                  params={'n': n}, kind='pair', w=w)
 
 
-def make_rerun(entry, params, w):
-    """the same macro CODE INSTANCE executed twice (a harness flag sends the fall-through exit back to the block entry once):
-    the second pass starts from the temporaries / table state the first one left; spec = spec ; spec"""
+RERUN_PATTERNS = [0x6, 0xB, 0xD, 0x3, 0xE, 0x5]
+
+
+def make_rerun(entry, params, w, dom=None):
+    """the same macro CODE INSTANCE executed twice: a harness flag sends the fall-through exit back to the block entry once,
+    and in between every operand variable v_i is xor-ed with a delta variable d_i (ns.xor, a macro with its own theorems),
+    so the second pass runs on DIFFERENT operands and starts from the temporaries / carry / table state the first pass
+    left.  spec = S ; (v_i ^= d_i) ; S.  In the theorems the deltas are pinned to fixed non-zero patterns (the operand
+    domain stays the macro's own); the real-engine samples draw them at random."""
     b = make_block(entry, params, w)
-    idx = list(range(len(b.vars)))
-    b.spec = ('seq', [(idx, b.spec), (idx, b.spec)])
+    k = len(b.vars)
+    phs = [ph for ph, _, _ in b.vars]
+    for ph, r in (dom or {}).items():
+        b.dom[phs.index(ph)] = tuple(r)
+    base_spec = b.spec
+    idx = list(range(k))
+    parts = [(idx, base_spec)]
+    lines = []
+    sdom = list(b.dom)
+    for i, (ph, kind, n) in enumerate(list(b.vars)):
+        full = 1 << (_bits(kind) * n)
+        pat = 0
+        for j in range(n if kind == 'hex' else (n + 3) // 4):
+            pat |= RERUN_PATTERNS[(i + j) % len(RERUN_PATTERNS)] << (4 * j)
+        pat = (pat % full) or 1
+        b.vars.append((f'dl{i}', kind, n))
+        b.dom.append((pat, pat + 1))
+        sdom.append((0, full))
+        parts.append(([i, k + i], f'{kind}_xor {n}'))
+        lines.append(f'{kind}.xor {n}, {{{ph}}}, {{dl{i}}}')
+    parts.append((idx, base_spec))
+    b.spec = ('seq', parts)
+    b.sample_dom = sdom
     b.bid = 'rerun_' + b.bid
-    b.title = 'twice (same code instance): ' + b.title
+    b.title = 'twice (same code instance, operands changed in between): ' + b.title
     b.kind = 'pair'
     b.macro = f'{entry["name"]};{entry["name"]}'
-    b.rerun = True
+    b.rerun = lines
     b.witnesses = []
     return b
+
+
+def rerun_instances(cfg, entry, tier):
+    """[(params, domain override)] of the rerun blocks of a table entry"""
+    if entry.get('rerun'):
+        return entry['rerun'][tier]
+    qs = entry['inst']['quick']
+    if not qs:
+        return []
+    p = dict(min(qs, key=lambda q: (not q.get('pin'), q.get('n', 1))))
+    p.pop('w', None)
+    if set(p) - {'pin'} == {'n'}:
+        p['n'] = cfg.rerun_n
+    if len(entry['vars']) >= 4 and entry['pin']:
+        p['pin'] = 1
+    return [(p, {})]
 
 
 def plan_blocks(ctx, cfg):
@@ -308,15 +353,15 @@ def plan_blocks(ctx, cfg):
         for w in widths[1:]:
             for a, b in ctx.rng.sample(pairs, max(1, len(pairs) // 10)):
                 thm.append(make_pair(cfg, a, b, w))
-    # the same code instance run twice: every non-branching macro that has temporaries or belongs to the composition class
-    reruns = [e for e in cfg.table if (e['temps'] or e['seq']) and e['inst']['quick']]
+    # the same code instance run twice (operands changed in between): EVERY macro that declares private temporaries, in both
+    # tiers; the temp-less macros of the composition class: all in thorough, a seed-chosen handful in quick
+    with_temps = [e for e in cfg.table if e['temps']]
+    others = [e for e in cfg.table if e['seq'] and not e['temps']]
     if tier == 'quick':
-        reruns = ctx.rng.sample(reruns, min(cfg.reruns_quick, len(reruns)))
-    for e in reruns:
-        p = min(e['inst']['quick'], key=lambda q: (not q.get('pin'), q.get('n', 1)))
-        if len(e['vars']) >= 4 and not p.get('pin') and e['pin']:
-            p = dict(p, pin=1)
-        thm.append(make_rerun(e, p, widths[0]))
+        others = ctx.rng.sample(others, min(cfg.reruns_quick, len(others)))
+    for e in with_temps + others:
+        for p, dom in rerun_instances(cfg, e, tier):
+            thm.append(make_rerun(e, p, widths[0], dom))
     return thm, smp, [e['name'] for e in boosted]
 
 
@@ -334,7 +379,9 @@ def block_text(b, k, literal=None):
     for c in b.calls:
         lines.append('    ' + c.format_map(_Keep(env)))
     if b.rerun:
-        lines += [f'    bit.if {pre}_rf, {pre}_ra, {pre}_l0', f'{pre}_ra:', f'    bit.not {pre}_rf', f'    ;{pre}']
+        lines += [f'    bit.if {pre}_rf, {pre}_ra, {pre}_l0', f'{pre}_ra:', f'    bit.not {pre}_rf']
+        lines += ['    ' + ln.format_map(_Keep(env)) for ln in (b.rerun if isinstance(b.rerun, list) else [])]
+        lines.append(f'    ;{pre}')
     lines.append(f'{pre}_l0: stl.loop')
     for i in range(1, b.exits + 1):
         lines.append(f'{pre}_x{i}: stl.output_char {0x30 + i}')
@@ -539,8 +586,9 @@ def patches(b, values, ww):
 
 def sample_operands(rng, b, count):
     """edge values of every variable first (all combinations when few), then random ones"""
+    dom = b.sample_dom or b.dom
     edges = []
-    for lo, hi in b.dom:
+    for lo, hi in dom:
         span = hi - lo
         e = {lo, hi - 1, lo + span // 2, lo + (span // 2 - 1 if span > 1 else 0), lo + min(1, span - 1)}
         if span > 16:
@@ -558,7 +606,7 @@ def sample_operands(rng, b, count):
     tries = 0
     while len(out) < count and tries < 10 * count:
         tries += 1
-        c = tuple(rng.randrange(lo, hi) for lo, hi in b.dom)
+        c = tuple(rng.randrange(lo, hi) for lo, hi in dom)
         if c not in seen:
             seen.add(c)
             out.append(list(c))
